@@ -1,5 +1,5 @@
 SPECIFICATION Spec
-CONSTANTS IntParts = {0, 1, 2, 5, 7, 16, 20, 100, 512, 1000, 1023, 1024, 2047, 65536, 2000000}
+CONSTANTS IntParts = {0, 1, 2, 7, 16, 100, 512, 1023, 1024, 2047, 65536, 2000000}
           Fracs <- FracsT
           Units = {"kb", "KB", "Kb", "kB", "mb", "MB", "Mb", "mB", "gb", "GB", "Gb", "gB"}
 INVARIANTS Whole Bracket CaseBlind Emit
